@@ -31,7 +31,7 @@ def strat_case(draw, tier):
     for m in margins:
         m["exp"]["r"] = r
     case = {"d": d, "margins": margins, "h_rel": draw(_f(0.5, 1.5)), "a_frac": [draw(_f(0.05, 0.95)) for _ in range(d)],
-            "symmetric": draw(st.booleans()), "recovery": draw(_f(0.0, 0.9)), "spread": draw(_f(0.0005, 0.2)),
+            "symmetric": draw(st.booleans()), "recovery": draw(_f(0.0, 0.9)), "spread": draw(_f(0.0005, 0.2)), "positional": draw(st.booleans()),
             "maturity": draw(_f(0.5, 10.0)), "t": draw(_f(0.1, 10.0)), "bump": draw(_f(1.01, 1.5)),
             "which": draw(st.integers(0, d - 1)),
             "method": draw(st.sampled_from(["INVERSION", "BINARYSEARCHTREEADAPTED"]))}
@@ -124,7 +124,12 @@ def body(case):
     # spread <-> present value: E[CDS payoff] under tau ~ Exp(theta), by numerical integration of the payoff itself
     rr = case["margins"][0]["exp"]["r"]
     s = case["spread"]
-    cds = CDS(recovery_rate=R, spread=s, maturity=T, discounting=lambda u: math.exp(-rr * u))
+    # (the contract is written with keywords or positionally, in the documented order recovery rate, spread, maturity,
+    # discounting)
+    if case.get("positional"):
+        cds = CDS(R, s, T, lambda u: math.exp(-rr * u))
+    else:
+        cds = CDS(recovery_rate=R, spread=s, maturity=T, discounting=lambda u: math.exp(-rr * u))
     if th > 1e-9:
         dfT = math.exp(-rr * T)
         f = lambda u: th * math.exp(-th * u) * float(cds.evaluate(u)) * dfT  # noqa: E731
